@@ -1,7 +1,7 @@
 SPECIFICATION TSpec
 CONSTANTS
   Dev <- T_Dev
-  B = 2
+  B = 3
   RecMax = 1
 INVARIANT Progress
 INVARIANT TypeOK
